@@ -133,6 +133,11 @@ def make_world(stack, servers, cfg):
     return w
 
 
+def catalogue_supports(stack, op):
+    from vk import catalogue
+    return catalogue.supports(stack, op)
+
+
 def run_call(res, stack, servers, cfg, op, args, kw, tag, w=None, callno=0, case=None):
     """one public call, judged on the bytes it wrote; with w given the call runs on that (already used) client"""
     cfgl = dict(cfg)
@@ -341,6 +346,17 @@ def shard(tier, seed, idx, n):
             if stack == "client":
                 run_call(res, stack, servers, {}, "cache_memlimit", (v,), {}, "memlimit")
                 res.case((stack, "cache_memlimit", repr(v)))
+    # 4b. commands without a key: exactly the documented line and nothing more
+    for stack, servers in STACKS[:2]:
+        for op, a, kw in (("version", (), {}), ("quit", (), {}), ("shutdown", (), {}), ("shutdown", (True,), {}),
+                          ("shutdown", (), {"graceful": True}), ("shutdown", (False,), {})):
+            work += 1
+            if work % n != idx:
+                continue
+            if not catalogue_supports(stack, op):
+                continue
+            run_call(res, stack, servers, {}, op, a, kw, "nokey")
+            res.case((stack, op, repr(a), repr(kw)))
     # 5. sequences of calls on ONE client (validation must not depend on what the client did before), with stats /
     #    cache_memlimit arguments that reuse key tokens in between; prefix-prefixed keys and keys at the prefix boundary
     for stack, servers in STACKS:
